@@ -28,6 +28,7 @@ import (
 	"verif/harness/vrun"
 
 	"github.com/php-any/origami/data"
+	"github.com/php-any/origami/node"
 	ohttp "github.com/php-any/origami/std/net/http"
 )
 
@@ -38,6 +39,7 @@ type Case struct {
 	Route      string     `json:"route"`
 	GoMaxProcs int        `json:"gomaxprocs"`
 	Rounds     int        `json:"rounds"`
+	Yields     bool       `json:"yields"` // park requests at the verif yield point inside the $_GET lazy fill too
 }
 
 type Resp struct {
@@ -107,6 +109,22 @@ func gateFn(id int, k int) int {
 	g.arrive <- k
 	<-g.release
 	return 0
+}
+
+// the request the scheduler has just released (gated mode runs one request at a time), -1 = none
+var running = -1
+
+// yieldFn is installed as node.VerifYieldHook: the running request parks exactly like at a gate
+// (stage code -1) until the scheduler releases it again
+func yieldFn(point string) {
+	gmu.Lock()
+	g := gates[running+1]
+	gmu.Unlock()
+	if g == nil {
+		return
+	}
+	g.arrive <- -1
+	<-g.release
 }
 
 func mkRequest(i int) *http.Request {
@@ -214,6 +232,11 @@ func runGated() {
 			out.Encode(map[string]any{"err": e})
 			return
 		}
+		if c.Yields {
+			node.VerifYieldHook = yieldFn
+		} else {
+			node.VerifYieldHook = nil
+		}
 		gmu.Lock()
 		gates = map[int]*gateState{}
 		for i := 1; i <= c.NReq; i++ {
@@ -239,6 +262,9 @@ func runGated() {
 				return false
 			}
 			g := gates[i+1]
+			gmu.Lock()
+			running = i
+			gmu.Unlock()
 			if stage[i] == 0 {
 				close(start[i])
 			} else {
@@ -246,6 +272,9 @@ func runGated() {
 			}
 			select {
 			case k := <-g.arrive:
+				if k == -1 {
+					k = -2 // parked at a yield point
+				}
 				stage[i] = k
 			case <-done[i]:
 				stage[i] = -1
@@ -267,6 +296,7 @@ func runGated() {
 				step(i)
 			}
 		}
+		node.VerifYieldHook = nil
 		out.Encode(map[string]any{"resps": resps, "order": order})
 	})
 }
